@@ -228,6 +228,17 @@ func execC19(c C19Case, bound time.Duration) (facts map[string]bool, err error) 
 	ctx, cancel := context.WithCancel(context.Background())
 	defer cancel()
 
+	var stuck error
+	defer func() {
+		if stuck != nil {
+			err = stuck
+		}
+	}()
+	shutdown := func() {
+		if serr := GuardBounded("Shutdown", bound, func() error { svc.Shutdown(); return nil }); serr != nil && stuck == nil {
+			stuck = fmt.Errorf("after %s(%q): %v", c.Op, addr, serr)
+		}
+	}
 	serveOnce := func(a string) error { // bind + serve + round trip + shutdown on a known-good address
 		if berr := svc.Bind(ctx, a); berr != nil {
 			return fmt.Errorf("Bind(%q) of a known-good address failed: %v", a, berr)
@@ -239,7 +250,7 @@ func execC19(c C19Case, bound time.Duration) (facts map[string]bool, err error) 
 		for svc.VerifActiveConnections() != 0 && time.Now().Before(dl) {
 			time.Sleep(100 * time.Microsecond)
 		}
-		svc.Shutdown()
+		shutdown()
 		select {
 		case <-done:
 		case <-time.After(bound):
@@ -327,7 +338,7 @@ func execC19(c C19Case, bound time.Duration) (facts map[string]bool, err error) 
 		var opErr error
 		done := make(chan error, 1)
 		if c.Op == "bind" {
-			if perr := Guard(func() error { opErr = svc.Bind(ctx, addr); return nil }); perr != nil {
+			if perr := GuardBounded(fmt.Sprintf("Bind(%q)", addr), bound, func() error { opErr = svc.Bind(ctx, addr); return nil }); perr != nil {
 				return facts, fmt.Errorf("Bind(%q) %v", addr, perr)
 			}
 		} else {
@@ -371,7 +382,7 @@ func execC19(c C19Case, bound time.Duration) (facts map[string]bool, err error) 
 		if m.class == "refuse" {
 			if !refusedOrFailed {
 				// for listen: it is serving something; stop it first
-				svc.Shutdown()
+				shutdown()
 				return facts, fmt.Errorf("%s(%q) was accepted although the string %s", c.Op, addr, refuseReason(addr))
 			}
 			facts["refused"] = true
@@ -392,20 +403,20 @@ func execC19(c C19Case, bound time.Duration) (facts map[string]bool, err error) 
 			if m.fsPath != "" && m.class == "strict" {
 				p := m.fsPath
 				if !isSocket(p) {
-					svc.Shutdown()
+					shutdown()
 					return facts, fmt.Errorf("%s(%q) succeeded but %q is not a socket in the filesystem", c.Op, addr, p)
 				}
 			}
 			if m.abstract && m.class == "strict" && bystander == "" {
 				if _, serr := os.Lstat(filepath.Join(dir, m.target)); serr == nil {
-					svc.Shutdown()
+					shutdown()
 					return facts, fmt.Errorf("%s(%q): an abstract address created the file %q", c.Op, addr, m.target)
 				}
 			}
 			if c.Op == "bind" && c.Pre != "bound" && c.Pre != "bound-same" && len(addr)%2 == 0 {
 				// variant: shut down without ever serving - the endpoint must be released all the same
 				facts["shutdown-without-serving"] = true
-				svc.Shutdown()
+				shutdown()
 				if m.fsPath != "" && m.class == "strict" {
 					if _, serr := os.Lstat(m.fsPath); serr == nil {
 						return facts, fmt.Errorf("Bind(%q) then Shutdown (never served): the socket path %q still exists", addr, m.fsPath)
@@ -429,7 +440,7 @@ func execC19(c C19Case, bound time.Duration) (facts map[string]bool, err error) 
 			for svc.VerifActiveConnections() != 0 && time.Now().Before(dl) {
 				time.Sleep(100 * time.Microsecond)
 			}
-			svc.Shutdown()
+			shutdown()
 			select {
 			case <-done:
 			case <-time.After(bound):
